@@ -93,7 +93,8 @@ VARIABLES S,      \* the whole state as one record
 
 -----------------------------------------------------------------------------
 Ev(k, c, n) == [k |-> k, c |-> c, n |-> n]
-Pk(t, a) == [t |-> t, a |-> a]
+Pk(t, a) == [t |-> t, a |-> a, i |-> 0]
+Pong(i) == [t |-> "pong", a |-> "", i |-> i]
 NoAlt == [on |-> FALSE, out |-> <<>>, res |-> "", wait |-> ""]
 NoFlush == [from |-> 0, n |-> 0]
 
@@ -187,7 +188,7 @@ VerStep(s0, e) ==
   ELSE [s EXCEPT !.buf = v.buf, !.pm = v.pm, !.nl = v.nl]
 
 (* ---------------------------------------------------------------- packet phases *)
-Pongs(a, b) == [i \in 1 .. (b - a) |-> Pk("pong", a + i)]   \* pongs a+1 .. b
+Pongs(a, b) == [i \in 1 .. (b - a) |-> Pong(a + i)]          \* pongs a+1 .. b
 StrictInitial(s) == s.first /\ s.strict /\ s.kx \in {"msg", "nk"}
 \* K1: mux.loop is blocked in writePacket, `incoming` is full and readLoop holds one more packet
 Wedgeable(s) == AsIs /\ s.kx = "sent" /\ Pend(s) >= MaxPending + ChanSize + 2
@@ -331,17 +332,31 @@ Killers == {"unk", "unimpl"}
 \* the library's mux is blocked (K1) or about to race: only what is deterministic is offered
 Quiet(s) == (s.kx = "sent" /\ s.ph = "open" /\ Pend(s) > MaxPending) \/ (s.due /\ s.kx = "idle")
 
-Offered(s, k) ==
-  /\ k \in Kinds
+\* what a peer event must satisfy for its outcome to be determined (a recorded trace must keep to it as well)
+LegalKind(s, k) ==
+  /\ k \in PacketKinds
   /\ Overflowed(s) => k \in {"kexinit", "disc"}
-  /\ (s.ovf /\ ~Overflowed(s)) => k \in {"kexmsg", "newkeys"}
-  /\ k \in {"ignore", "debug"} => s.nnoise < MaxNoise
-  /\ k \in {"ping", "bigping"} => s.nping < MaxPing
   /\ k = "bigping" => s.kx = "idle" /\ ~s.due /\ s.ph = "open"
   /\ k = "kexinit" => s.ph \in {"kex0", "open"}
   /\ k = "kexmsgbad" => Client(s)
   /\ (s.ph = "auth" /\ s.authst = "pk") => k \in {"authfail", "disc"}
   /\ Quiet(s) => k \in {"ignore", "debug", "disc", "kexinit"} \cup (IF s.due /\ s.kx = "idle" THEN {"greq0"} ELSE {"ping"})
+
+Legal(s, e) ==
+  /\ s.ph # "dead" /\ ~s.stuck
+  /\ \/ e.k = "eof"
+     \/ e.k = "ver" /\ s.ph = "ver" /\ e.n >= 1 /\ e.c \in {"S", "H", "D", "R", "N", "Z", "X", "B"} /\ (e.c = "N" /\ e.n > 1 => s.pm # 4)
+     \/ e.k = "disc" /\ s.ph # "ver" /\ LegalKind(s, "disc")
+     \/ e.k = "ping" /\ s.ph # "ver" /\ LegalKind(s, "ping") /\ e.n >= 1 /\ (e.n > 1 => s.kx = "sent" /\ s.ph = "open")
+     \/ e.k = "burst" /\ e.c \in Killers /\ e.n >= 1 /\ s.ph \in {"svc", "auth", "open"} /\ s.kx \in {"idle", "sent"} /\ ~Quiet(s)
+                       /\ ~(s.ph = "auth" /\ s.authst = "pk")
+     \/ e.k \notin {"eof", "ver", "disc", "ping", "burst"} /\ s.ph # "ver" /\ e.n = 1 /\ LegalKind(s, e.k)
+
+Offered(s, k) ==
+  /\ k \in Kinds /\ LegalKind(s, k)
+  /\ k \in {"ignore", "debug"} => s.nnoise < MaxNoise
+  /\ k \in {"ping", "bigping"} => s.nping < MaxPing
+  /\ (s.ovf /\ ~Overflowed(s)) => k \in {"kexmsg", "newkeys"}
 
 PeerEvents(s) ==
   IF s.ph = "dead" \/ s.stuck THEN {}
@@ -356,6 +371,12 @@ PeerEvents(s) ==
                                          /\ ~(s.ph = "auth" /\ s.authst = "pk") THEN Killers \cap Kinds ELSE {},
                                  n \in Bursts}
        \cup {Ev("eof", "", 0) : x \in IF s.ovf THEN {} ELSE {1}}
+
+\* the outcomes the specification allows for an event: the step, and where the library may give up instead of
+\* queueing (alt), the clean end of the connection
+Outcomes(s, e) ==
+  LET n == Step(s, e) IN
+  {n} \cup (IF n.alt.on THEN {[Fail([n EXCEPT !.alt = NoAlt], "err") EXCEPT !.out = <<>>]} ELSE {})
 
 Peer == \E e \in PeerEvents(S) : S' = Step(S, e) /\ hist' = hist
 Next == Peer
@@ -430,8 +451,8 @@ P3_ClientRecords ==
 \* P4
 P4_PongOrder ==
   \A i \in 1 .. Len(S.out) : S.out[i].t = "pong" =>
-     /\ S.out[i].a <= S.sent /\ S.out[i].a >= 1
-     /\ (i > 1 /\ S.out[i - 1].t = "pong") => S.out[i].a = S.out[i - 1].a + 1
+     /\ S.out[i].i <= S.sent /\ S.out[i].i >= 1
+     /\ (i > 1 /\ S.out[i - 1].t = "pong") => S.out[i].i = S.out[i - 1].i + 1
 P4_PongOnlyWhenEstablished == Has(S, "pong") => S.res = "ok" /\ S.last.k \in {"ping", "bigping", "newkeys"}
 \* every PING is answered or waits for the end of the key exchange; nothing is answered twice
 P4_Answered == (S.ph = "open" /\ S.kx = "idle") => S.sent = S.np
